@@ -94,6 +94,7 @@ class UnitResult:
         self.log_tail = ''
         self.loop_obls = 0
         self.dropped_callees = []
+        self.real_fn_obl = {}       # fn@file -> number of obligations located in it
         self.real_fns = set()       # functions of /repo whose real body is in
                                     # the verified program (carry obligations)
 
@@ -290,7 +291,10 @@ def build_unit(u, scr, workdir, tier, trace=False, common_replace=()):
         r.checks.append(item)
         if item['file'].startswith(scr_root) and item['function'] and \
                 '/src/' in item['file']:
-            r.real_fns.add(item['function'] + '@' + item['file'].split('/src/', 1)[1])
+            key = item['function'] + '@' + item['file'].split('/src/', 1)[1]
+            r.real_fns.add(key)
+            if not item['reach']:
+                r.real_fn_obl[key] = r.real_fn_obl.get(key, 0) + 1
         if 'loop_invariant' in item['id'] or 'loop invariant' in desc \
                 or 'loop_step' in item['id']:
             r.loop_obls += 1
@@ -731,6 +735,7 @@ def write_evidence_file(prop, table, tier, seed, results, known_hits, nvio,
                        'replace': r.unit.get('replace', []),
                        'bound': r.unit.get('bound'),
                        'real_functions': sorted(r.real_fns),
+                       'real_function_obligations': r.real_fn_obl,
                        'what': r.unit.get('what', ''),
                        'seconds': {k: round(v, 2)
                                    for k, v in r.secs.items()}}
